@@ -7,6 +7,7 @@ All statements hold for every program, namespace, fault plan and fuel.
 -/
 import DTML.Render
 import DTML.Props.C08
+import DTML.Props.C02
 set_option linter.unusedVariables false
 namespace DTML.Props.C09
 open DTML.Render
@@ -394,5 +395,17 @@ private def okPieces : Res (List Piece) → Option (List Piece)
 example : okPieces (renderBlk {} 50 chain { stack := ns }).1 = some [.text "B".toList, .text "7".toList] := by
   decide
 end Example
+
+/-! ### The lookups the conditional rests on are the lookups of the source
+
+A named condition is fetched with `md[name]`; the value is answered by the topmost frame that has it, an instance frame
+asking its object once and then its cache.  Both functions are regenerated from the source on every run and proved equal
+to the model in Props/C02; a change of `TemplateDict.getitem` or `InstanceDict.__getitem__` therefore leaves the theorems of
+this file without their tie to the code, and this check reports it. -/
+theorem gen_lookup_is_model (env : Env) (fuel : Nat) (key : Text) (call : Bool) (st : St) (v : Val)
+    (cache : List (Text × Val)) (tr : List Event) :
+    GenNs.getitemLoopGen env fuel key call st.stack [] st = getitem env (fuel + 1) key call st ∧
+    GenNs.instGetitemGen env v cache key tr = frameGet env (.inst v cache) key tr :=
+  ⟨C02.gen_templatedict_getitem_is_model env fuel key call st, C02.gen_instancedict_getitem_is_model env v cache key tr⟩
 
 end DTML.Props.C09
